@@ -2,11 +2,12 @@ SPECIFICATION Spec
 CONSTANTS
   LabelAlpha = {97, 45, 65, 128, 252, 20013, 128512, 1114111}
   MaxLabel = 3
-  PayAlpha = {97, 122, 57, 45, 90, 252}
+  PayAlpha = {97, 57, 45, 90, 252}
   MaxPay = 4
-  LongAlpha = {57, 97}
-  LongMin = 5
-  LongMax = 8
+  LongPre = 4
+  LongAlpha = {57, 97, 107, 113}
+  LongMin = 1
+  LongMax = 4
   Reps = {1926, 1927}
   BigCPs = {1114111}
   MaxLawLabels = 2
